@@ -367,6 +367,25 @@ def m_property_value(r, b):
     return "value of a property of instance %s.%s" % (i.parent.name, i.name)
 
 
+def m_property_value_type(r, b):
+    """the same text, another type: 4 -> "4", True -> "True", "7" -> 7 (a property value is compared as the value it is)"""
+    insts = [c for d in defs_of(b) for c in d.children if "EDIF.properties" in c and c["EDIF.properties"]]
+    r.shuffle(insts)
+    for i in insts:
+        props = [dict(x) for x in i["EDIF.properties"]]
+        for k_, pr in enumerate(props):
+            v = pr.get("value")
+            if isinstance(v, bool) or isinstance(v, int):
+                pr["value"] = str(v)
+            elif isinstance(v, str) and v.lstrip("-").isdigit():
+                pr["value"] = int(v)
+            else:
+                continue
+            i["EDIF.properties"] = props
+            return "type (not text) of the value of property %d of instance %s.%s: %r -> %r" % (k_, i.parent.name, i.name, v, pr["value"])
+    return None
+
+
 def m_property_added(r, b):
     insts = [c for d in defs_of(b) for c in d.children if "EDIF.properties" not in c]
     if not insts:
@@ -517,7 +536,7 @@ def m_add_instance(r, b):
 
 MUTATIONS = [m_move_pin_within_bus, m_port_direction, m_port_wider, m_port_narrower, m_port_arrayness, m_cable_wider, m_cable_narrower,
              m_outer_other_instance, m_outer_other_port, m_outer_other_bit, m_inner_other_port, m_inner_other_bit,
-             m_repoint, m_repoint_twin, m_property_value, m_property_added, m_property_dropped, m_property_field_dropped, m_property_field_added, m_property_appended, m_drop_library, m_add_library, m_drop_definition,
+             m_repoint, m_repoint_twin, m_property_value, m_property_value_type, m_property_added, m_property_dropped, m_property_field_dropped, m_property_field_added, m_property_appended, m_drop_library, m_add_library, m_drop_definition,
              m_add_definition, m_drop_port, m_add_port, m_drop_cable, m_add_cable, m_drop_instance, m_add_instance]
 
 
